@@ -1,4 +1,4 @@
-"""C13 -- a long-lived project answers like a fresh one (clauses R13.1-R13.16)."""
+"""C13 -- a long-lived project answers like a fresh one (clauses R13.1-R13.18)."""
 from __future__ import annotations
 
 import ast
@@ -24,6 +24,8 @@ EXPLANATION = (
 EXPLANATION += ' R13.15: the unfiltered observer resets concluded data on created, moved, removed and validate.'
 EXPLANATION += ' R13.14: a function that remembers its answer under a key reads, in the computation of the remembered value, nothing of its parameters that the key does not contain (followed into the helpers it calls).'
 EXPLANATION += ' R13.16: in the auto-import observer every per-file index update is dominated by the Python-file test that generate_cache applies.'
+EXPLANATION += " R13.17: a table of an object whose entries are computed from another table of the object is dropped, entry by entry, wherever the source table changes."
+EXPLANATION += " R13.18: a concluded-data cell is put on the list the reset iterates whatever it holds (never conditional on the truth value of the data)."
 ASSUMPTIONS = ["required event sets per cache are a hand-confirmed table (sa/rules/c13.py REQUIRED) with reasons"]
 
 MUTATOR_KIND = {"write": "changed", "move": "moved", "remove": "removed", "create_file": "created",
@@ -73,6 +75,10 @@ def check(ctx, res) -> None:
     memo_key_rule(ctx, res, "R13.14", (), rest=True)
     _structure_observer_rule(ctx, res)
     _index_only_modules_rule(ctx, res)
+    _cell_registration_rule(ctx, res)
+    from .common import derived_table_rule as _dt
+
+    _dt(ctx, res, "R13.17", ('rope.base.pycore', 'rope.base.project', 'rope.base.resourceobserver', 'rope.base.pyobjects', 'rope.base.pynames', 'rope.contrib.autoimport.sqlite', 'rope.base.oi.objectinfo', 'rope.base.oi.memorydb'))
 
 
 def _indicator_rule(ctx, res) -> None:
@@ -851,3 +857,63 @@ def _index_only_modules_rule(ctx, res) -> None:
                         f"`{ast.unparse(c)[:50]}` runs for any file that is changed, moved or removed through rope: after `notes.txt` was written with `def fn(): pass` the "
                         "index offers `from notes import fn`, which a freshly generated index does not contain", function=h.qualname)
     res.floor("R13.16", "per-file index updates in the observer handlers", n, 3)
+
+
+def _cell_registration_rule(ctx, res) -> None:
+    """R13.18: what a module concluded lives in cells (`_ConcludedData`); `forget_all_data()` resets exactly the cells that stand in the
+    module's list (`concluded_data`).  A cell that can hold a conclusion must therefore be in that list WHATEVER the conclusion
+    is: an empty dict ("this module defines nothing through its star imports") or an empty list ("no superclasses") is a
+    conclusion like any other and goes stale in the same way.  Every `append` to the list the reset iterates (or to the
+    attribute of a cell that was given that list) is either unconditional or conditional only on identity tests with None:
+    never on the truth value of the data stored."""
+    idx = ctx.idx
+    mod = "rope.base.pyobjects"
+    pm = idx.need_class(f"{mod}._PyModule")
+    fg = pm.methods.get("_forget_concluded_data")
+    if fg is None:
+        raise AnalysisError("anchor=_PyModule._forget_concluded_data not found")
+    lists = {x.attr for x in ast.walk(fg.node) if is_self_attr(x)}
+    cell = idx.need_class(f"{mod}._ConcludedData")
+    # attributes of a cell that hold the owner's list: constructor parameters stored under self.<attr>, where some construction passes self.<list>
+    init = cell.methods.get("__init__")
+    cell_attrs = set()
+    if init is not None:
+        ps = param_names(init.node)[1:]
+        passed = set()
+        for f in idx.functions.values():
+            if f.unit.modname != mod:
+                continue
+            for c in calls_in(f.node):
+                if call_name(c) == cell.name:
+                    for i, a in enumerate(c.args):
+                        if is_self_attr(a) and a.attr in lists and i < len(ps):
+                            passed.add(ps[i])
+                    for k in c.keywords:
+                        if is_self_attr(k.value) and k.value.attr in lists:
+                            passed.add(k.arg)
+        for x in walk_local(init.node):
+            if isinstance(x, ast.Assign) and isinstance(x.value, ast.Name) and x.value.id in passed:
+                cell_attrs |= {t.attr for t in x.targets if is_self_attr(t)}
+    n = 0
+    for c_, attrs in ((pm, lists), (cell, cell_attrs)):
+        for m in c_.methods.values():
+            cfg = None
+            for call in calls_in(m.node):
+                if not (isinstance(call.func, ast.Attribute) and call.func.attr in ("append", "add") and is_self_attr(call.func.value) and call.func.value.attr in attrs):
+                    continue
+                n += 1
+                cfg = cfg or CFG(m.node)
+                nds = cfg.node_containing(call)
+                bad = None
+                for nd in nds:
+                    for t, pol in cfg.guards(nd.id):
+                        none_test = isinstance(t, ast.Compare) and len(t.ops) == 1 and isinstance(t.ops[0], (ast.Is, ast.IsNot)) \
+                            and isinstance(t.comparators[0], ast.Constant) and t.comparators[0].value is None
+                        if not none_test and not cfg.is_named_condition(t):
+                            bad = bad or t
+                res.add("R13.18", f"{c_.name}.{m.name}|cell-registered-whatever-it-holds#{n}", bad is None, f"{m.unit.rel}:{call.lineno}",
+                        "the cell is put on the list the reset iterates, whatever it holds" if bad is None else
+                        f"`{ast.unparse(call)[:60]}` registers the cell for the reset only under `{ast.unparse(bad)[:60]}`: a cell that concluded something EMPTY ({{}} for a module whose "
+                        "star import brings nothing, [] for a class without resolvable bases) is never registered, so forget_all_data() never clears it -- after the imported "
+                        "module gains a class the warm project still answers 'nothing', a fresh one does not", function=m.qualname)
+    res.floor("R13.18", "registrations of concluded-data cells", n, 1)
